@@ -259,6 +259,242 @@ def check_kind_predicate(repo, rep):
                loc=sp.loc(f.node))
 
 
+class _NoValue:
+    def __repr__(self):
+        return '_'
+
+
+def _action_interp(fnode, vals, NO):
+    """Abstractly run a grammar action (assignments to p[0] under tests of
+    len(p); list literals and concatenation; utils.NO_VALUE) on the symbolic
+    semantic values `vals` (p[1:]).  Raises minieval.Unsupported."""
+    from sa import minieval
+    p = [None] + list(vals)
+
+    def ev(n):
+        if isinstance(n, ast.Attribute) and n.attr == 'NO_VALUE':
+            return NO
+        if isinstance(n, ast.List):
+            return [ev(e) for e in n.elts]
+        if isinstance(n, ast.BinOp) and isinstance(n.op, ast.Add):
+            a, b = ev(n.left), ev(n.right)
+            if not (isinstance(a, list) and isinstance(b, list)):
+                raise minieval.Unsupported('non-list +')
+            return a + b
+        if isinstance(n, ast.Subscript) and isinstance(
+                n.value, ast.Name) and n.value.id == 'p':
+            if isinstance(n.slice, ast.Slice):
+                raise minieval.Unsupported('slice of p')
+            return p[ev(n.slice)]
+        if isinstance(n, ast.Call) and isinstance(
+                n.func, ast.Name) and n.func.id == 'len' and isinstance(
+                n.args[0], ast.Name) and n.args[0].id == 'p':
+            return len(p)
+        if isinstance(n, ast.Call) and isinstance(
+                n.func, ast.Name) and n.func.id == 'list' and n.args:
+            v = ev(n.args[0])
+            if isinstance(v, list):
+                return list(v)
+        if isinstance(n, (ast.Constant, ast.Compare, ast.BoolOp,
+                          ast.UnaryOp, ast.IfExp)):
+            if isinstance(n, ast.Constant):
+                return n.value
+            if isinstance(n, ast.Compare):
+                left = ev(n.left)
+                for op, c in zip(n.ops, n.comparators):
+                    r = ev(c)
+                    ok = {ast.Eq: lambda: left == r,
+                          ast.NotEq: lambda: left != r,
+                          ast.Lt: lambda: left < r,
+                          ast.LtE: lambda: left <= r,
+                          ast.Gt: lambda: left > r,
+                          ast.GtE: lambda: left >= r}.get(type(op))
+                    if ok is None:
+                        raise minieval.Unsupported('compare')
+                    if not ok():
+                        return False
+                    left = r
+                return True
+            if isinstance(n, ast.BoolOp):
+                vs = [ev(x) for x in n.values]
+                return all(vs) if isinstance(n.op, ast.And) else any(vs)
+            if isinstance(n, ast.UnaryOp) and isinstance(n.op, ast.Not):
+                return not ev(n.operand)
+            if isinstance(n, ast.IfExp):
+                return ev(n.body) if ev(n.test) else ev(n.orelse)
+        raise minieval.Unsupported(type(n).__name__)
+
+    def block(stmts):
+        for st in stmts:
+            if isinstance(st, ast.Expr) and isinstance(
+                    st.value, ast.Constant):
+                continue
+            if isinstance(st, ast.If):
+                block(st.body if ev(st.test) else st.orelse)
+            elif isinstance(st, ast.Assign) and len(st.targets) == 1 and \
+                    isinstance(st.targets[0], ast.Subscript) and isinstance(
+                    st.targets[0].value, ast.Name) and \
+                    st.targets[0].value.id == 'p':
+                p[ev(st.targets[0].slice)] = ev(st.value)
+            elif isinstance(st, ast.Pass):
+                pass
+            else:
+                raise minieval.Unsupported(type(st).__name__)
+    block(fnode.body)
+    return p[0]
+
+
+def check_empty_slots(repo, rep, bound=7):
+    """R12d: decided on the generated LALR table.  Every argument list made
+    of up to `bound` positional slots, each either a value or empty, whose
+    last positional slot is a value -- optionally followed by keyword
+    arguments, and the one-trailing-empty-slot-before-keywords form -- is
+    accepted, and the actions build exactly one entry per slot (NO_VALUE for
+    an empty one) in order."""
+    from sa import minieval
+    import itertools
+    m = grammar.load_repo_package()
+    pmod = repo.module('yaql.language.parser')
+    NO = _NoValue()
+    n_total = 0
+    for label, fac in (('default', m['factory'].YaqlFactory()),
+                       ('legacy', m['legacy'].YaqlFactory()
+                        if hasattr(m['legacy'], 'YaqlFactory') else None)):
+        if fac is None:
+            continue
+        b = grammar.build(fac)
+        prods = b.grammar.Productions
+        term = b.grammar.Terminals
+
+        def find(name, pred):
+            for pr in prods:
+                if pr.name == name and pred(pr.prod):
+                    return pr
+            raise AnalysisError('anchor vanished: production of `%s`' % name)
+        pf = find('func', lambda r: len(r) == 3 and r[1] == 'args')
+        T_open, T_close = pf.prod[0], pf.prod[2]
+        pn = find('named_arg', lambda r: len(r) == 3)
+        T_map = pn.prod[1]
+        pv = find('value', lambda r: len(r) == 1 and r[0] in term and
+                  r[0] not in ('error',))
+        T_val = pv.prod[0]
+        if ',' not in term:
+            raise AnalysisError('anchor vanished: terminal `,`')
+        action, goto = b.table.lr_action, b.table.lr_goto
+        interp_ok = [True]
+        actions_ast = {}
+
+        def parse(tokens):
+            """-> (accepted, slot list captured at the func reduction)"""
+            toks = list(tokens) + ['$end']
+            st = [0]
+            vals = [None]
+            i = 0
+            captured = [None]
+            steps = 0
+            while True:
+                steps += 1
+                if steps > 10000:
+                    raise AnalysisError('LR simulation does not terminate')
+                t = action[st[-1]].get(toks[i])
+                if t is None:
+                    return False, None
+                if t > 0:
+                    st.append(t)
+                    vals.append('V' if toks[i] == T_val else toks[i])
+                    i += 1
+                elif t < 0:
+                    pr = prods[-t]
+                    k = pr.len
+                    rhs = vals[len(vals) - k:] if k else []
+                    if k:
+                        del st[-k:]
+                        del vals[-k:]
+                    v = None
+                    if pr.name == 'named_arg':
+                        v = 'N'
+                    elif pr.name == 'value':
+                        v = 'V'
+                    elif pr.name == 'func':
+                        captured[0] = rhs[1]
+                        v = 'V'
+                    elif pr.name in ('args', 'arglist', 'incomplete_arglist',
+                                     'named_arglist') and interp_ok[0]:
+                        fn = actions_ast.get(pr.func)
+                        if fn is None:
+                            fi = pmod.func('Parser.' + pr.func)
+                            fn = actions_ast[pr.func] = fi.node
+                        try:
+                            v = _action_interp(fn, rhs, NO)
+                        except (minieval.Unsupported, IndexError, TypeError,
+                                KeyError) as e:
+                            interp_ok[0] = False
+                            rep.note('R12d: action %s not interpretable '
+                                     '(%s); slot alignment not decided' % (
+                                         pr.func, e))
+                    st.append(goto[st[-1]][pr.name])
+                    vals.append(v)
+                else:
+                    return True, captured[0]
+
+        cases = []
+        for k in range(1, bound + 1):
+            for pat in itertools.product((True, False), repeat=k - 1):
+                slots = list(pat) + [True]
+                for named in (0, 1, 2):
+                    cases.append((slots, named))
+            # one trailing empty slot directly before keyword arguments
+            for pat in itertools.product((True, False), repeat=k - 1):
+                if k >= 2 and pat and pat[-1]:
+                    slots = list(pat) + [False]
+                    cases.append((slots, 1))
+        bad_acc = []
+        bad_align = []
+        for slots, named in cases:
+            toks = [T_open]
+            for j, s in enumerate(slots):
+                if j:
+                    toks.append(',')
+                if s:
+                    toks.append(T_val)
+            for j in range(named):
+                toks += [',', T_val, T_map, T_val]
+            toks.append(T_close)
+            ok, got = parse(toks)
+            n_total += 1
+            text = 'f(' + ', '.join(
+                ['v' if s else '' for s in slots] + ['k=>v'] * named) + ')'
+            if not ok:
+                bad_acc.append(text)
+                continue
+            if interp_ok[0]:
+                want = ['V' if s else NO for s in slots] + ['N'] * named
+                if got != want:
+                    bad_align.append('%s -> %r' % (text, got))
+        rep.ob('R12d', 'grammar[%s]/empty-slots-accepted' % label,
+               not bad_acc,
+               'the generated %s grammar rejects %d of %d argument lists '
+               'whose defaulted positional parameters are skipped with '
+               'empty slots, e.g. %s: the empty-slot spelling of those '
+               'calls does not exist although the keyword spelling does' % (
+                   label, len(bad_acc), len(cases), bad_acc[:4]),
+               loc=pmod.loc(pmod.func('Parser.p_arg_list').node),
+               construct='; '.join(bad_acc[:3]))
+        if interp_ok[0]:
+            rep.ob('R12d', 'grammar[%s]/one-entry-per-slot' % label,
+                   not bad_align,
+                   'the %s grammar actions do not build one argument per '
+                   'slot in order (NO_VALUE for an empty slot) for %d '
+                   'argument lists, e.g. %s: a later positional argument '
+                   'binds to the wrong parameter' % (
+                       label, len(bad_align), bad_align[:3]),
+                   loc=pmod.loc(pmod.func('Parser.p_arg_list').node),
+                   construct='; '.join(bad_align[:2]))
+    rep.floor('argument-list shapes run through the LALR tables', n_total,
+              500)
+    return n_total
+
+
 def run(repo, rep):
     rep.rule('R12a', 'KEYWORD-NAMES-ARE-WRITABLE: the keyword name of '
              'every visible parameter is a keyword token, not a word '
@@ -271,6 +507,10 @@ def run(repo, rep):
     rep.rule('R12c', 'KIND-PREDICATE: runner.call tests is_function '
              'without and is_method with a receiver; the kind decorators '
              'set the flags they are named after')
+    rep.rule('R12d', 'EMPTY-SLOTS: on the generated LALR tables, every '
+             'pattern of value/empty positional slots (bounded length) '
+             'ending in a value, optionally followed by keyword arguments, '
+             'is accepted and the actions yield one entry per slot')
     rep.trusted += ['reflection executes import-time and registration code '
                     'only (create_context), never runner.call',
                     'result equality across spellings is not decided']
@@ -285,5 +525,12 @@ def run(repo, rep):
     n1 = check_keyword_names(repo, rep, uni)
     n2, neff = check_declared_vs_effective(repo, rep, uni)
     check_kind_predicate(repo, rep)
+    n4 = check_empty_slots(repo, rep)
+    from sa.rules import c11
+    rep.rule('R11f', 'LAZY-KEYS (shared with C11): the lazy argument set is '
+             'keyed by positional index and the call\'s keyword, so a lazy '
+             'parameter is handled the same whether passed positionally or '
+             'by (aliased) keyword')
+    c11.check_lazy_keys(repo, rep)
     rep.count(keyword_parameters=n1, declared_overloads=n2,
-              effective_definitions=neff)
+              effective_definitions=neff, argument_list_shapes=n4)
